@@ -67,6 +67,9 @@ type c54XRound struct {
 	Inter    []c54XReq   `json:"interleaved"`
 	Burst1   []c54XReq   `json:"burst1"`
 	Burst2   []c54XReq   `json:"burst2"`
+	// Slow: no aborter at all; the cluster's TimeoutReadClient is 400 ms and the backend pauses for
+	// 1.6 s in the middle of every body (requests in Burst1, all clients well-behaved)
+	Slow bool `json:"slow_response,omitempty"`
 }
 
 // variant returns a copy of the round with fresh request ids (replay: the round is repeated).
@@ -90,19 +93,22 @@ func (x *c54XRound) variant(i int) *c54XRound {
 
 func (x *c54XRound) host() string {
 	h := map[string]string{"gzip": "gz", "br": "br"}[x.Coding]
+	if x.Slow {
+		return h + "t.c54.test"
+	}
 	if x.Cancel {
 		return h + "c.c54.test"
 	}
 	return h + "n.c54.test"
 }
 
-// c54XBody: every line carries the id and its own offset plus 128 pseudo-random bits, so that a
+// c54XBody: every line carries the id and its own offset plus 256 pseudo-random bits, so that a
 // body neither equals nor contains a piece of another body and compresses to about one half.
 func c54XBody(id string, n int) []byte {
 	g := vkit.NewRand(vkit.Hash64("c54x", id))
 	var sb bytes.Buffer
 	for sb.Len() < n {
-		fmt.Fprintf(&sb, "%s@%07d %016x%016x lorem ipsum\n", id, sb.Len(), g.U64(), g.U64())
+		fmt.Fprintf(&sb, "%s@%07d %016x%016x%016x%016x\n", id, sb.Len(), g.U64(), g.U64(), g.U64(), g.U64())
 	}
 	return sb.Bytes()[:n]
 }
@@ -193,25 +199,32 @@ func (b *c54XBackend) serve(c net.Conn) {
 	} else {
 		fmt.Fprintf(&w, "Content-Length: %d\r\n\r\n", len(body))
 	}
-	if g == nil || first > len(body) {
+	pause, _ := strconv.Atoi(req.Header.Get("X-Pause-Ms"))
+	if (g == nil && pause == 0) || first > len(body) {
 		first = len(body)
 	}
-	w.Write(c54XFrame(body[:first], chunked, g == nil))
+	w.Write(c54XFrame(body[:first], chunked, first == len(body)))
 	if c54XWrite(c, w.Bytes(), []int{333, 4096, 1500}) != nil {
 		return
 	}
-	if g == nil {
+	if first == len(body) {
 		return // bfe closes (no keep-alive to this backend) or sends nothing more; the deferred Close ends it
 	}
-	select {
-	case <-g.release:
-	case <-time.After(30 * time.Second):
+	if g != nil {
+		select {
+		case <-g.release:
+		case <-time.After(30 * time.Second):
+		}
+	} else {
+		time.Sleep(time.Duration(pause) * time.Millisecond)
 	}
 	if c54XWrite(c, c54XFrame(body[first:], chunked, true), []int{4096}) != nil {
 		return
 	}
-	// wait for bfe to drop the exchange
-	io.Copy(io.Discard, br)
+	if g != nil {
+		// wait for bfe to drop the exchange
+		io.Copy(io.Discard, br)
+	}
 }
 
 func c54XWrite(c net.Conn, out []byte, sizes []int) error {
@@ -232,12 +245,17 @@ func c54XWrite(c net.Conn, out []byte, sizes []int) error {
 
 var c54XLevels = []int{1, 5, 9}
 
+const (
+	c54XSlowReadClientMs = 400  // TimeoutReadClient of the slow-response clusters
+	c54XSlowPauseMs      = 1600 // pause of the backend in the middle of the body of a slow response
+)
+
 // c54XRules: three rules per product, the compression level (and flush size) is chosen by the path prefix.
 func c54XRules(cmd string) string {
 	r := func(cond string, q, flush int) string {
 		return fmt.Sprintf(`{"Cond":"%s","Action":{"Cmd":"%s","Quality":%d,"FlushSize":%d}}`, cond, cmd, q, flush)
 	}
-	return "[" + r(`req_path_prefix_in(\"/c54/q1-\", false)`, 1, 64) + "," + r(`req_path_prefix_in(\"/c54/q9-\", false)`, 9, 4096) + "," + r("default_t()", 5, 512) + "]"
+	return "[" + r(`req_path_prefix_in(\"/c54/q1-\", false)`, 1, 256) + "," + r(`req_path_prefix_in(\"/c54/q9-\", false)`, 9, 4096) + "," + r("default_t()", 5, 512) + "]"
 }
 
 // c54XConf returns the compress_rule.data entries and clusters of this family.
@@ -250,8 +268,21 @@ func c54XConf(be *c54XBackend) (rules string, clusters []e2e.Cluster) {
 			cmd = "BROTLI"
 		}
 		rules += fmt.Sprintf(`,"p_%s":%s`, n, c54XRules(cmd))
+		// TimeoutReadClient 10 min: how long a response takes on a loaded machine must not matter here
+		// (see the slow-response cases below for what a short one does)
 		clusters = append(clusters, e2e.Cluster{Name: n, Hosts: []string{n + ".c54.test"}, SubClusters: sub, CancelOnClientClose: n[2] == 'c',
-			TimeoutConnSrv: 20000, TimeoutResponseHeader: 60000})
+			TimeoutConnSrv: 20000, TimeoutResponseHeader: 60000, TimeoutReadClient: 600000})
+	}
+	// slow-response cases: CancelOnClientClose and a TimeoutReadClient (the time a client gets to send its
+	// request body) that is shorter than the pause the backend makes in the middle of the response body
+	for _, n := range []string{"gzt", "brt"} {
+		cmd := "GZIP"
+		if n[0] == 'b' {
+			cmd = "BROTLI"
+		}
+		rules += fmt.Sprintf(`,"p_%s":%s`, n, c54XRules(cmd))
+		clusters = append(clusters, e2e.Cluster{Name: n, Hosts: []string{n + ".c54.test"}, SubClusters: sub, CancelOnClientClose: true,
+			TimeoutConnSrv: 20000, TimeoutResponseHeader: 60000, TimeoutReadClient: c54XSlowReadClientMs})
 	}
 	return rules, clusters
 }
@@ -275,12 +306,17 @@ func c54XGen(g *vkit.Rand, n int) *c54XRound {
 	seq := 0
 	req := func(kind string) c54XReq {
 		seq++
-		return c54XReq{ID: fmt.Sprintf("x%d%s%d", n, kind, seq), Blen: []int{700, 3000, 9000, 30000, 100000}[g.Intn(5)], Frame: g.PickS([]string{"cl", "chunked"})}
+		// brotli costs up to 10 ms of CPU per KB at the extreme levels: smaller bodies
+		sizes := []int{700, 3000, 9000, 30000, 100000}
+		if x.Coding == "br" {
+			sizes = []int{700, 3000, 9000, 20000, 30000}
+		}
+		return c54XReq{ID: fmt.Sprintf("x%d%s%d", n, kind, seq), Blen: sizes[g.Intn(5)], Frame: g.PickS([]string{"cl", "chunked"})}
 	}
 	for i, k := 0, 1+g.Intn(3); i < k; i++ {
 		a := c54XAbort{c54XReq: req("a"), Point: []string{"after-headers", "mid-body"}[(n/15+i)%2], Mode: []string{"fin", "rst", "close"}[(n/30+i+g.Intn(3))%3]}
-		a.First = []int{32 << 10, 48 << 10, 96 << 10}[g.Intn(3)]
-		a.Blen = a.First + []int{1, 4096, 40000, 200000}[g.Intn(4)]
+		a.First = []int{16 << 10, 24 << 10, 48 << 10}[g.Intn(3)]
+		a.Blen = a.First + []int{1, 4096, 20000, 60000}[g.Intn(4)]
 		x.Aborters = append(x.Aborters, a)
 	}
 	for i, k := 0, g.Intn(3); i < k; i++ {
@@ -300,6 +336,22 @@ func c54XGen(g *vkit.Rand, n int) *c54XRound {
 		x.Burst2 = append(x.Burst2, req("c"))
 	}
 	return x
+}
+
+// c54XSlowRounds: one round per coding and level with four well-behaved requests whose backend pauses
+// (1.6 s) in the middle of the body on a cluster with TimeoutReadClient 400 ms and CancelOnClientClose.
+func c54XSlowRounds(base int) []*c54XRound {
+	var out []*c54XRound
+	for _, co := range []string{"gzip", "br"} {
+		for _, l := range c54XLevels {
+			x := &c54XRound{N: base + len(out), Coding: co, Cancel: true, Level: l, Slow: true}
+			for i, blen := range []int{9000, 30000, 9000, 30000} {
+				x.Burst1 = append(x.Burst1, c54XReq{ID: fmt.Sprintf("x%ds%d", x.N, i), Blen: blen, Frame: []string{"cl", "chunked"}[i/2]})
+			}
+			out = append(out, x)
+		}
+	}
+	return out
 }
 
 // ---- execution -----------------------------------------------------------------------------
@@ -337,8 +389,12 @@ func (e *c54XEnv) bfeSaid(id string) string {
 }
 
 func (x *c54XRound) request(q *c54XReq, first int) []byte {
-	return []byte(fmt.Sprintf("GET /c54/q%d-%s HTTP/1.1\r\nHost: %s\r\nX-Id: %s\r\nX-Blen: %d\r\nX-First: %d\r\nX-Frame: %s\r\nAccept-Encoding: %s\r\nConnection: close\r\n\r\n",
-		x.Level, q.ID, x.host(), q.ID, q.Blen, first, q.Frame, x.Coding))
+	pause := 0
+	if x.Slow {
+		first, pause = q.Blen/2, c54XSlowPauseMs
+	}
+	return []byte(fmt.Sprintf("GET /c54/q%d-%s HTTP/1.1\r\nHost: %s\r\nX-Id: %s\r\nX-Blen: %d\r\nX-First: %d\r\nX-Pause-Ms: %d\r\nX-Frame: %s\r\nAccept-Encoding: %s\r\nConnection: close\r\n\r\n",
+		x.Level, q.ID, x.host(), q.ID, q.Blen, first, pause, q.Frame, x.Coding))
 }
 
 // abort plays one aborter and returns when bfe has dropped the exchange (or a watchdog expired).
@@ -442,16 +498,20 @@ func (e *c54XEnv) good(x *c54XRound, q *c54XReq, phase string) {
 		r.Count("x_client_error_skipped", 1)
 		return
 	}
+	ctx := "after-aborted-neighbour"
+	if x.Slow {
+		ctx = "slow-response-on-cancel-on-client-close-cluster"
+	}
 	w := map[string]interface{}{"xround": x, "request": q, "phase": phase, "client_head": clip(string(raw), 400), "request_took_ms": took.Milliseconds()}
-	if took > 10*time.Second {
-		r.Count("x_wellbehaved_took_longer_than_10s", 1)
+	if took > 900*time.Millisecond {
+		r.Count(fmt.Sprintf("x_wellbehaved_took[%ds]", int(took.Seconds()+0.1)), 1)
 	}
 	resp, _, rej := http1.ParseResponse(raw, "GET", 1)
 	if rej != nil {
 		r.CaseS(key, false)
 		r.Count("x_wellbehaved_wrong", 1)
 		w["bfe_recorded_for_this_request"] = e.bfeSaid(q.ID)
-		r.Violation("client-stream-not-a-response:"+rej.Class+":after-aborted-neighbour", fmt.Sprintf("%v", rej), w)
+		r.Violation("client-stream-not-a-response:"+rej.Class+":"+ctx, fmt.Sprintf("%v", rej), w)
 		return
 	}
 	if len(http1.Get(resp.Fields, "X-Case")) == 0 {
@@ -465,7 +525,7 @@ func (e *c54XEnv) good(x *c54XRound, q *c54XReq, phase string) {
 		r.CaseS(key, false)
 		r.Count("x_passed_through", 1)
 		if !bytes.Equal(resp.Body, want) {
-			r.Violation("uncompressed-body-differs:after-aborted-neighbour", fmt.Sprintf("client body %d bytes, backend sent %d", len(resp.Body), len(want)), w)
+			r.Violation("uncompressed-body-differs:"+ctx, fmt.Sprintf("client body %d bytes, backend sent %d", len(resp.Body), len(want)), w)
 		}
 		return
 	}
@@ -490,7 +550,7 @@ func (e *c54XEnv) good(x *c54XRound, q *c54XReq, phase string) {
 	case derr != nil:
 		r.Count("x_wellbehaved_wrong", 1)
 		w["bfe_recorded_for_this_request"] = e.bfeSaid(q.ID)
-		r.Violation("compressed-body-does-not-decompress:"+ce+":after-aborted-neighbour", fmt.Sprintf("%v (wire body %d bytes, %d bytes decoded before the error; %s)", derr, len(resp.Body), len(dec), phase), w)
+		r.Violation("compressed-body-does-not-decompress:"+ce+":"+ctx, fmt.Sprintf("%v (wire body %d bytes, %d bytes decoded before the error; %s)", derr, len(resp.Body), len(dec), phase), w)
 	case !bytes.Equal(dec, want):
 		what := fmt.Sprintf("decompressed %d bytes, backend sent %d (%s)", len(dec), len(want), phase)
 		if i := bytes.IndexByte(dec, '@'); i > 0 && !bytes.HasPrefix(dec, []byte(q.ID+"@")) {
@@ -499,7 +559,7 @@ func (e *c54XEnv) good(x *c54XRound, q *c54XReq, phase string) {
 		r.Count("x_wellbehaved_wrong", 1)
 		w["bfe_recorded_for_this_request"] = e.bfeSaid(q.ID)
 		what += "; bfe recorded for this request: " + w["bfe_recorded_for_this_request"].(string)
-		r.Violation("decompressed-body-differs:"+ce+":after-aborted-neighbour", what, w)
+		r.Violation("decompressed-body-differs:"+ce+":"+ctx, what, w)
 	}
 	r.Count("x_wellbehaved_checked["+phase+"]", 1)
 	r.Count("x_wellbehaved_checked["+x.Coding+":q"+strconv.Itoa(x.Level)+"]", 1)
@@ -525,6 +585,11 @@ func (e *c54XEnv) run(x *c54XRound) {
 		if wait {
 			bw.Wait()
 		}
+	}
+	if x.Slow {
+		burst(x.Burst1, "slow-response", true)
+		e.r.Count("x_slow_rounds", 1)
+		return
 	}
 	burst(x.Inter, "interleaved", false)
 	aw.Wait()
@@ -575,7 +640,7 @@ func c54XFinish(r *vkit.Run, fired int64) {
 			r.Inconclusive("interference family: abort mode never observed with CancelOnClientClose: " + m)
 		}
 	}
-	for _, p := range []string{"interleaved", "burst1", "burst2"} {
+	for _, p := range []string{"interleaved", "burst1", "burst2", "slow-response"} {
 		if r.Counter("x_wellbehaved_checked["+p+"]") == 0 {
 			r.Inconclusive("interference family: no well-behaved request judged in phase " + p)
 		}
